@@ -46,6 +46,16 @@ func Strip(v ssa.Value) ssa.Value {
 						continue
 					}
 				}
+				if fv, ok := x.X.(*ssa.FreeVar); ok {
+					// read inside a function literal of a variable of the enclosing function that is
+					// assigned once, before the literal is created
+					if a, ok := FreeVarBinding(fv).(*ssa.Alloc); ok {
+						if sv := singleAssignedBeforeClosure(a, fv.Parent()); sv != nil {
+							v = sv
+							continue
+						}
+					}
+				}
 			}
 			return v
 		default:
@@ -61,6 +71,30 @@ var singleStoreSeen = map[*ssa.Alloc]bool{}
 // separately) is stored to exactly once, no function literal writes it, its address does not
 // escape, and that store dominates the load: the stored value.
 func singleAssigned(a *ssa.Alloc, ld *ssa.UnOp) ssa.Value {
+	st := singleStoreOf(a)
+	if st == nil {
+		return nil
+	}
+	if st.Block() == ld.Block() {
+		for _, in := range st.Block().Instrs {
+			if in == ssa.Instruction(st) {
+				return st.Val
+			}
+			if in == ssa.Instruction(ld) {
+				return nil
+			}
+		}
+		return nil
+	}
+	if st.Block().Dominates(ld.Block()) {
+		return st.Val
+	}
+	return nil
+}
+
+// singleStoreOf: the only store to the scalar local a, when no function literal writes it and its
+// address does not escape; nil otherwise.
+func singleStoreOf(a *ssa.Alloc) *ssa.Store {
 	st, seen := singleStoreMemo[a], singleStoreSeen[a]
 	if !seen {
 		singleStoreSeen[a] = true
@@ -111,24 +145,7 @@ func singleAssigned(a *ssa.Alloc, ld *ssa.UnOp) ssa.Value {
 		}
 		singleStoreMemo[a] = st
 	}
-	if st == nil {
-		return nil
-	}
-	if st.Block() == ld.Block() {
-		for _, in := range st.Block().Instrs {
-			if in == ssa.Instruction(st) {
-				return st.Val
-			}
-			if in == ssa.Instruction(ld) {
-				return nil
-			}
-		}
-		return nil
-	}
-	if st.Block().Dominates(ld.Block()) {
-		return st.Val
-	}
-	return nil
+	return st
 }
 
 // FieldOfAddr returns the struct field addressed by v if v is a FieldAddr.
@@ -564,11 +581,48 @@ func passEdgesDepth(fn *ssa.Function, depth int, guards ...Guard) (map[Edge]bool
 		if behindPass(phi.Block()) {
 			continue // the whole condition lies behind a pass edge already
 		}
+		// incoming ways that cannot happen: the edge into the merge block is dead (DeadEdges, set by
+		// a rule that resolved constant flags), or it leaves a branch on a constant
+		deadWay := func(pred *ssa.BasicBlock) bool {
+			for si, su := range pred.Succs {
+				if su != phi.Block() {
+					continue
+				}
+				if DeadEdges[Edge{pred, si}] {
+					return true
+				}
+				if len(pred.Instrs) > 0 {
+					if pif, ok := pred.Instrs[len(pred.Instrs)-1].(*ssa.If); ok {
+						cv, cneg := pif.Cond, false
+						for {
+							if u, ok := cv.(*ssa.UnOp); ok && u.Op == token.NOT {
+								cv, cneg = u.X, !cneg
+								continue
+							}
+							break
+						}
+						if k, ok := Strip(cv).(*ssa.Const); ok && k.Value != nil && k.Value.Kind() == constant.Bool {
+							taken := 1
+							if constant.BoolVal(k.Value) != cneg {
+								taken = 0
+							}
+							if si != taken {
+								return true
+							}
+						}
+					}
+				}
+			}
+			return false
+		}
 		for _, T := range []bool{true, false} {
 			all, some := true, false
 			matched := make([]int, len(guards))
 			for i, e := range phi.Edges {
 				pred := phi.Block().Preds[i]
+				if deadWay(pred) {
+					continue
+				}
 				if behindPass(pred) {
 					// this way of computing the phi has passed a guard (start-independent: dominance)
 					some = true
@@ -632,6 +686,10 @@ func GuardEdges(fn *ssa.Function, guards ...Guard) (map[Edge]bool, []int) {
 	noDeadEdges = saved
 	return pe, cnt
 }
+
+// DeadEdges: edges a rule has established as infeasible for the query at hand (constant flags
+// resolved per case); the ways of a merged condition that arrive over them are ignored.
+var DeadEdges map[Edge]bool
 
 // noDeadEdges: set while FailEdges computes the pass edges it complements (branches that are merely
 // dead under the cut are not guards and have no fail edge).
@@ -730,8 +788,47 @@ func liftGuarded(fn *ssa.Function, sink ssa.Instruction, depth int, check func(f
 		return ok, counts
 	}
 	if fn.Parent() != nil {
-		// a function literal: lifted to the places where the enclosing function calls it
-		return ok, counts
+		// a function literal: lifted to the places where the enclosing function calls it directly
+		var calls []*ssa.Call
+		good := true
+		AllInstrs(fn.Parent(), func(in ssa.Instruction) {
+			mc, isMC := in.(*ssa.MakeClosure)
+			if !isMC || mc.Fn != ssa.Value(fn) {
+				return
+			}
+			if mc.Referrers() == nil {
+				good = false
+				return
+			}
+			for _, r := range *mc.Referrers() {
+				switch x := r.(type) {
+				case *ssa.Call:
+					if x.Call.Value != ssa.Value(mc) {
+						good = false
+					}
+					calls = append(calls, x)
+				case *ssa.DebugRef:
+				default:
+					good = false
+				}
+			}
+		})
+		if !good || len(calls) == 0 {
+			return ok, counts
+		}
+		total := append([]int{}, counts...)
+		for _, call := range calls {
+			ok2, c2 := liftGuarded(fn.Parent(), call, depth+1, check)
+			if !ok2 {
+				return false, counts
+			}
+			for i := range c2 {
+				if i < len(total) {
+					total[i] += c2[i]
+				}
+			}
+		}
+		return true, total
 	}
 	sites := LiftCallers(fn)
 	if len(sites) == 0 {
@@ -2073,4 +2170,68 @@ func evalBoolUnder(v ssa.Value, reach map[*ssa.BasicBlock]bool, cut map[Edge]boo
 		}
 	}
 	return false, false
+}
+
+// FreeVarBinding: the value bound to a captured variable where its function literal is created (the
+// address of the enclosing function's variable); nil when not found.
+func FreeVarBinding(fv *ssa.FreeVar) ssa.Value {
+	fn := fv.Parent()
+	parent := fn.Parent()
+	if parent == nil {
+		return nil
+	}
+	idx := -1
+	for i, v := range fn.FreeVars {
+		if v == fv {
+			idx = i
+		}
+	}
+	var out ssa.Value
+	AllInstrs(parent, func(in ssa.Instruction) {
+		if mc, ok := in.(*ssa.MakeClosure); ok && mc.Fn == ssa.Value(fn) && idx >= 0 && idx < len(mc.Bindings) {
+			out = mc.Bindings[idx]
+		}
+	})
+	if f2, ok := out.(*ssa.FreeVar); ok {
+		return FreeVarBinding(f2)
+	}
+	return out
+}
+
+// singleAssignedBeforeClosure: the captured variable a is assigned exactly once and that store
+// dominates the creation of the function literal lit: the assigned value.
+func singleAssignedBeforeClosure(a *ssa.Alloc, lit *ssa.Function) ssa.Value {
+	// reuse the single-store analysis (the load argument only matters for dominance)
+	var mk *ssa.MakeClosure
+	if a.Referrers() == nil {
+		return nil
+	}
+	for _, r := range *a.Referrers() {
+		if mc, ok := r.(*ssa.MakeClosure); ok && mc.Fn == ssa.Value(lit) {
+			mk = mc
+		}
+	}
+	if mk == nil {
+		// captured by an enclosing literal first
+		return nil
+	}
+	st := singleStoreOf(a)
+	if st == nil {
+		return nil
+	}
+	if st.Block() == mk.Block() {
+		for _, in := range st.Block().Instrs {
+			if in == ssa.Instruction(st) {
+				return st.Val
+			}
+			if in == ssa.Instruction(mk) {
+				return nil
+			}
+		}
+		return nil
+	}
+	if st.Block().Dominates(mk.Block()) {
+		return st.Val
+	}
+	return nil
 }
